@@ -1143,12 +1143,32 @@ func eq(lhs, rhs reflect.Value) bool {
 		return reflect.DeepEqual(lhs.Interface(), rhs.Interface())
 	}
 
+	// Null is only equal to null. A null can be the null
+	// literal or a nil value from the input data, and it may
+	// or may not be wrapped in an interface (e.g. when it is
+	// an array item), so it cannot be compared directly.
+	if isNull(lhs) || isNull(rhs) {
+		return isNull(lhs) && isNull(rhs)
+	}
+
 	// All other types (e.g. functions) are
 	// compared directly. Two functions with the same contents
 	// are not considered equal unless they're the same
 	// physical object in memory.
 
 	return lhs == rhs
+}
+
+func isNull(v reflect.Value) bool {
+	v = jtypes.Resolve(v)
+	switch v.Kind() {
+	case reflect.Interface:
+		return v.IsNil()
+	case reflect.Ptr:
+		return v.IsNil() && v.Type() == reflect.TypeOf(null)
+	default:
+		return false
+	}
 }
 
 func lt(lhs, rhs reflect.Value) bool {
@@ -1173,10 +1193,6 @@ func lte(lhs, rhs reflect.Value) bool {
 }
 
 func in(lhs, rhs reflect.Value) bool {
-	// TODO: Does not work with null, e.g.
-	//    null in null    // evaluates to false
-	//    null in [null]  // evaluates to false
-
 	rhs = arrayify(rhs)
 
 	for i, N := 0, rhs.Len(); i < N; i++ {
